@@ -5,6 +5,7 @@ Models: `Model/WideCache.lean` (single-value and multi-type maps, `WideColumnCac
 cache key with atomic steps of the code; `Model/SetCache.lean` (key-to-set map).
 -/
 import QbiceVerif.Lemmas.CacheWide
+import QbiceVerif.Lemmas.CacheSet
 
 namespace QbiceVerif.C09
 open QbiceVerif
@@ -56,5 +57,112 @@ theorem wide_refines_map_concurrent_fails :
        .begin 1, .put 1 (some 7), .cacheWrite 1, .submit 1, .commit, .notify, .evict,
        .fill 0, .sfLeave 0, .probe 0, .probe 1]).map (·.2)
       = some [(some 100, some 7), (some 100, some 7)] := by decide
+
+/-- The statement for any number of foreground tasks under the hypothesis that excludes F9's window;
+NOT proved (listed in the plugin's PARTIAL).  `quiet` says: whenever a task performs its
+insert-if-vacant (`fill`), no other task has updated the cache entry of the key (`cacheWrite`) since
+that task's last probe; `ordered` says writes reach the cache in batch-epoch order. -/
+def C09_concurrent_statement : Prop :=
+  ∀ (db0 : Option Nat) (n : Nat) (sched : List WideCache.Ev) (s : WideCache.State)
+    (outs : List (Option Nat × Option Nat)),
+    WideCache.run (WideCache.init db0 n) sched = some (s, outs) →
+    (∀ (i j : Nat) (t : Nat), i < j → sched[j]? = some (.fill t) →
+        (∃ u, sched[i]? = some (.cacheWrite u) ∧ u ≠ t) →
+        ∃ k, i < k ∧ k < j ∧ sched[k]? = some (.probe t)) →
+    (∀ (i j : Nat) (t u : Nat), i < j → sched[i]? = some (.cacheWrite t) → sched[j]? = some (.cacheWrite u) →
+        ∀ (si sj : WideCache.State) (oi oj : List (Option Nat × Option Nat)),
+          WideCache.run (WideCache.init db0 n) (sched.take i) = some (si, oi) →
+          WideCache.run (WideCache.init db0 n) (sched.take j) = some (sj, oj) →
+          ∀ bi bj, (si.tasks[t]?).bind (·.openB) = some bi → (sj.tasks[u]?).bind (·.openB) = some bj →
+            bi.epoch ≤ bj.epoch) →
+    ∀ p ∈ outs, p.1 = p.2
+
+/-! ## key-to-set map -/
+
+/-- "the key-to-set maps … a read returns exactly the result of all inserts and removes issued before
+it … no matter … what has been evicted, or how far the background writer has got … sets that spill
+past the in-memory threshold, and reads racing with flushes".
+
+REPAIRED configuration of the model (`get_snapshot` lets the chronologically last staged operation
+on an element win; the `Spilled` iterator keeps draining – fixes/key-of-set-*.diff).  One foreground
+task whose operations are atomic; ANY placement of `commit`, `notify` (flush up to an epoch),
+eviction of the cached set (always enabled) and of the staging log (when not dirty) between them;
+every spill threshold `thr`; every initial store image.  Every `get` returns, as a set, exactly the
+elements that the inserts/removes issued so far leave in the set. -/
+theorem set_refines_map (thr : Nat) (db0 : List Nat) (sched : List SetCache.Ev) (s : SetCache.State)
+    (outs : List (List Nat × List Nat))
+    (h : SetCache.run (SetCache.init SetCache.repaired thr db0) sched = some (s, outs)) :
+    ∀ p ∈ outs, ∀ x, x ∈ p.1 ↔ x ∈ p.2 :=
+  SetCache.run_outputs (SetCache.inv_init _ _ _) rfl h
+
+/-- The code AS IT IS, inside the trigger-free region: along any schedule on which every `get` is
+issued in a state satisfying `getSafe` (the staging log of the key holds at most one operation per
+element; a read that fetches a set whose store image exceeds the threshold has no staged removal
+among the first `thr+1` store elements), every `get` returns the true set – across the threshold,
+whatever has been evicted, wherever commits and flushes fall. -/
+theorem set_refines_map_asis_partial (thr : Nat) (db0 : List Nat) (s : SetCache.State)
+    (hr : SetCache.ReachSafe (SetCache.init SetCache.asIs thr db0) s)
+    (hs : SetCache.getSafe s = true) :
+    ∀ x, x ∈ (SetCache.get s).2 ↔ x ∈ s.truth := by
+  obtain ⟨I, hc⟩ := SetCache.inv_reachSafe hr
+  exact (SetCache.get_correct_asis I hc hs).1
+
+/-- non-vacuity of the hypothesis and of the conclusion: threshold 4, store {1..6}; a spilled fetch
+with a staged insert and a staged removal beyond the materialised prefix; commit, flush, eviction,
+refetch; shrinking below the threshold and reading the in-memory form.  (The third read streams the store, which
+already has the committed 9, and appends the staged 9 again: reads are compared as sets.) -/
+example :
+    (SetCache.run (SetCache.init SetCache.asIs 4 [1, 2, 3, 4, 5, 6])
+      [.begin, .ins 9, .rem 6, .get, .submit, .get, .commit, .get, .notify, .evictEntry, .get,
+       .begin, .rem 1, .rem 2, .submit, .commit, .notify, .evictEntry, .evictLog, .get,
+       .begin, .rem 3, .get]).map (·.2)
+      = some [([1, 2, 3, 4, 5, 9], [1, 2, 3, 4, 5, 9]), ([1, 2, 3, 4, 5, 9], [1, 2, 3, 4, 5, 9]),
+              ([1, 2, 3, 4, 5, 9, 9], [1, 2, 3, 4, 5, 9]), ([1, 2, 3, 4, 5, 9], [1, 2, 3, 4, 5, 9]),
+              ([3, 4, 5, 9], [3, 4, 5, 9]), ([4, 5, 9], [4, 5, 9])] := by decide
+
+/-- the state in which the last `get` of the example above is issued satisfies `getSafe` -/
+example :
+    ((SetCache.run (SetCache.init SetCache.asIs 4 [1, 2, 3, 4, 5, 6])
+      [.begin, .ins 9, .rem 6]).map (fun r => SetCache.getSafe r.1)) = some true := by decide
+
+/-- For the code as it is the unrestricted statement is FALSE (finding F10, first form): insert,
+remove, insert of one element in three uncommitted batches, set not cached: the staging log's heap
+order is I₃ I₁ R₂, the second insert is absorbed, the remove cancels the first – the element reads as
+absent.  The shortest such history (9 events). -/
+theorem set_asis_fails_heap_order :
+    (SetCache.run (SetCache.init SetCache.asIs 1024 [])
+      [.begin, .ins 5, .submit, .begin, .rem 5, .submit, .begin, .ins 5, .get]).map (·.2)
+      = some [([], [5])] := by decide
+
+/-- F10, second form (chronological order does not help): the store has 5; insert 5 (idempotent) and
+remove 5 in one batch cancel each other, the read falls back to the store and returns 5. -/
+theorem set_asis_fails_cancel :
+    (SetCache.run (SetCache.init SetCache.asIs 1024 [5]) [.begin, .ins 5, .rem 5, .get]).map (·.2)
+      = some [([5], [])] := by decide
+
+/-- F10, third form: insert in batch 0, remove in batch 1, batch 0 committed (its operation stays in the
+log: `FlushUpTo` pops from a max-heap): the pair cancels and the store image – which now has 5 – wins. -/
+theorem set_asis_fails_committed_op :
+    (SetCache.run (SetCache.init SetCache.asIs 1024 [])
+      [.begin, .ins 5, .submit, .begin, .rem 5, .submit, .commit, .get]).map (·.2)
+      = some [([5], [])] := by decide
+
+/-- Finding F17 (threshold 4 instead of 1024): store {1..5} is fetched with a staged removal of 3; the
+`Spilled` iterator meets 3, falls through to the exhausted rest iterator and the empty additions and
+ends the iteration: {1,2} instead of {1,2,4,5}. -/
+theorem set_asis_fails_spilled :
+    (SetCache.run (SetCache.init SetCache.asIs 4 [1, 2, 3, 4, 5]) [.begin, .rem 3, .get]).map (·.2)
+      = some [([1, 2], [1, 2, 4, 5])] := by decide
+
+/-- the repaired configuration on the same four histories -/
+example :
+    (SetCache.run (SetCache.init SetCache.repaired 1024 [])
+        [.begin, .ins 5, .submit, .begin, .rem 5, .submit, .begin, .ins 5, .get]).map (·.2) = some [([5], [5])] ∧
+    (SetCache.run (SetCache.init SetCache.repaired 1024 [5]) [.begin, .ins 5, .rem 5, .get]).map (·.2)
+        = some [([], [])] ∧
+    (SetCache.run (SetCache.init SetCache.repaired 1024 [])
+        [.begin, .ins 5, .submit, .begin, .rem 5, .submit, .commit, .get]).map (·.2) = some [([], [])] ∧
+    (SetCache.run (SetCache.init SetCache.repaired 4 [1, 2, 3, 4, 5]) [.begin, .rem 3, .get]).map (·.2)
+        = some [([1, 2, 4, 5], [1, 2, 4, 5])] := by decide
 
 end QbiceVerif.C09
